@@ -739,6 +739,54 @@ func c14Rack(p *load.Program, r *oblig.Report) {
 	}
 	r.Check(okFinal, rule, "RackAffinity.assignTopic gives a leftover slot only to a member that is not already above target", p.Pos(at.Pos()),
 		"if targetPerMember-len(assigned) >= 0 && remainder > 0 { delta++; remainder-- }", foundG)
+
+	// the zone-first pass: both in-zone hand-outs (the even share and the leftovers) run for every zone that has
+	// consumers; the only test that may skip them is "this zone has no consumer" (a test on the bound of the very
+	// loop or slice it guards is redundant and accepted)
+	nZone := 0
+	var skips []string
+	an.EachInstr(at, func(ins ssa.Instruction) {
+		mu, ok := ins.(*ssa.MapUpdate)
+		if !ok || mu.Map != result {
+			return
+		}
+		inZone := false
+		all := guardCanon(mu)
+		for _, c := range all {
+			if strings.HasPrefix(strings.TrimPrefix(c, "¬"), "next(range(") {
+				inZone = true
+			}
+		}
+		if !inZone {
+			return
+		}
+		nZone++
+		val := clean(an.ShapeCanon(mu.Value))
+		for _, c := range selConds(mu) {
+			if zeroTestOf(c, func(v string) bool { return strings.HasPrefix(v, "len(make(map[string][]string)[") }) {
+				continue // the zone has consumers
+			}
+			if strings.HasPrefix(c, "(φ{(1 + φ) | 0} < ") {
+				continue // the test of a loop counting up from zero
+			}
+			if zeroTestOf(c, func(v string) bool {
+				if strings.Contains(val, "[:"+v+"]") {
+					return true // the number of elements appended
+				}
+				for _, g := range all {
+					if strings.HasPrefix(g, "(idx(") && strings.HasSuffix(g, " < "+v+")") {
+						return true // the bound of the enclosing counted loop
+					}
+				}
+				return false
+			}) {
+				continue
+			}
+			skips = append(skips, p.Pos(mu.Pos())+": "+c)
+		}
+	})
+	r.Check(nZone >= 2 && len(skips) == 0, rule, "RackAffinity.assignTopic runs both in-zone hand-outs for every zone that has consumers", p.Pos(at.Pos()),
+		"in the zone loop only `len(consumers) == 0` skips the assignments", fmt.Sprintf("%d in-zone assignments; also skipped when: %v", nZone, skips))
 }
 
 // remOperand returns the decremented value when the guard's compared value is that same value.
@@ -773,4 +821,18 @@ func varargsElemIs(v ssa.Value, want string) bool {
 		}
 	}
 	return found
+}
+
+// zeroTestOf: c is a canonical comparison stating that a value accepted by isVal is not zero (positive).
+func zeroTestOf(c string, isVal func(string) bool) bool {
+	if strings.HasPrefix(c, "¬") || !strings.HasPrefix(c, "(") || !strings.HasSuffix(c, ")") {
+		return false
+	}
+	in := c[1 : len(c)-1]
+	for _, pre := range []string{"0 != ", "0 < "} {
+		if strings.HasPrefix(in, pre) && isVal(in[len(pre):]) {
+			return true
+		}
+	}
+	return false
 }
